@@ -12,7 +12,57 @@ MT = {
     "sp": CheckFn("sp-maxtimes", "Model.CrossSemiring", "sp_check_maxtimes", C01.CF["real"].ty),
     "fp": CheckFn("fp-maxtimes", "Model.CrossSemiring", "fp_check_maxtimes", C02.CF["real"].ty),
 }
-CHECKFNS = C01.CHECKFNS + C02.CHECKFNS + list(MT.values()) + C03.CHECKFNS
+TOL = CheckFn("c11-tol", "Model.Tolerance", "tol_check", Tup(QQ, QQ, QQ, QQ, QQ))
+CHECKFNS = C01.CHECKFNS + C02.CHECKFNS + list(MT.values()) + C03.CHECKFNS + [TOL]
+
+def tol_cases(rng, n, violations):
+    """The meaning of `tol` (fixed-point): an ABSOLUTE stopping distance, whatever the magnitude of the values.
+    Grammar X -> c | a X with nullary factors (x = a x + c), contraction a close to 1, values from 1 to 2^40;
+    Real: the returned value is judged in Coq (tol_check: within tol/(1-a) below c/(1-a), C11_fixed_point_stop_bound);
+    Log (log-weights given directly, down to -3000): compared with method='linear' using the same bound in log space
+    (log x* - log x_k <= (x* - x_k)/x_k, differential only)."""
+    import fggs, torch, math
+    vals, metas = [], []
+    for i in range(n):
+        a = Fraction(rng.choice([15, 31, 63]), 1); a = a / (a + 1)                 # 15/16, 31/32, 63/64
+        tol = Fraction(1, 10 ** rng.choice([4, 6, 8]))
+        kmax = 20000
+        def build(wa, wc, semiring):
+            g = fggs.FGG("X")
+            r1 = fggs.Graph(); r1.new_edge("c", [], is_terminal=True); g.new_rule("X", r1)
+            r2 = fggs.Graph(); r2.new_edge("a", [], is_terminal=True); r2.new_edge("X", [], is_nonterminal=True); g.new_rule("X", r2)
+            g.new_finite_factor("a", torch.tensor(wa, dtype=torch.float64)); g.new_finite_factor("c", torch.tensor(wc, dtype=torch.float64))
+            return g
+        if i % 3 != 2:
+            c = Fraction(2) ** rng.choice([0, 10, 20, 30, 40])
+            g = build(float(a), float(c), None)
+            case = dict(semiring="real", a=str(a), c=str(c), tol=str(tol), kmax=kmax)
+            try:
+                z = fggs.sum_product(g, method="fixed-point", semiring=fggs.RealSemiring(dtype=torch.float64), tol=float(tol), kmax=kmax)
+                obs = Fraction(float(z.to_dense() if hasattr(z, "to_dense") else z))
+            except Exception as e:
+                violations.append(Violation("sum_product raised %r" % (e,), case=case, corr="corr:tol")); continue
+            xs = c / (1 - a)
+            vals.append((a, c, tol, xs / 10 ** 12, obs)); metas.append(dict(case, observed=float(obs), least_fixed_point=float(xs)))
+        else:
+            lc = float(rng.choice([0, -30, -700, -3000])); la = math.log(float(a))
+            g = build(la, lc, None)
+            case = dict(semiring="log", log_a=la, log_c=lc, tol=str(tol), kmax=kmax)
+            try:
+                sr = fggs.LogSemiring(dtype=torch.float64)
+                zf = float(fggs.sum_product(g, method="fixed-point", semiring=sr, tol=float(tol), kmax=kmax))
+                zl = float(fggs.sum_product(build(la, lc, None), method="linear", semiring=sr))
+            except Exception as e:
+                violations.append(Violation("sum_product raised %r" % (e,), case=case, corr="corr:tol")); continue
+            # in log space the loop stops when log x_{k+1} - log x_k <= tol, i.e. x_{k+1} - x_k <= (e^tol - 1) x_k, hence
+            # x* - x_k <= (e^tol - 1) x_k / (1 - a) and log x* - log x_k <= (e^tol - 1) / (1 - a)
+            bound = math.expm1(float(tol)) / float(1 - a) + 1e-9
+            if not (zl - bound <= zf <= zl + 1e-9):
+                violations.append(Violation("Log semiring: fixed-point result %r is further than tol-implied %g from method='linear' result %r" % (zf, bound, zl),
+                                            case=case, observed=zf, expected=zl, corr="C11_fixed_point_stop_bound (log space, differential)",
+                                            call="sum_product(method='fixed-point', tol=%s)" % tol))
+    return vals, metas
+
 ASSUMPTIONS = [
     "every option combination (method x j_precompute x dtype x interpreter -OO) is judged in Coq against the same exact model (C01/C02 check functions), so agreement between combinations follows from agreement with the model; bitwise equality of the -OO run with the normal run is additionally measured and reported",
     "Log = log Real: both judged against the ereal model; Bool = support of Real: theorem supp_Zk; Viterbi <= Log: the Viterbi result with real-valued log-weights is judged against the max-times model and theorem maxtimes_le_plustimes gives the inequality",
@@ -78,7 +128,12 @@ def run(tier, seed):
     distinct = set()
     for i in range(n):
         recursive = (i % 2 == 1)
-        if recursive:
+        patterned = recursive and i % 8 == 3
+        if patterned:
+            # sparse (PatternedTensor) weights; the sparsity pattern of a nonterminal's value changes during the iteration
+            spec = gen.pattern_chain_spec(rng)
+            srs = [SR("real", "float64", Fraction(1, 4)), SR("real", "float32", Fraction(1, 4)), SR("log", "float64", Fraction(1, 4)), SRX(Fraction(1, 4)), SR("bool", "bool")]
+        elif recursive:
             spec = gen.random_spec(rng, recursive=True, linear=rng.choice([None, False, True]), allow_inf=False, max_nt=3, max_rules=3, max_nodes=3, max_edges=3, max_dom=2)
             spec["weights"] = {el: gen.nested_map(w, lambda v: v if v <= 1 else Fraction(1, 2)) for el, w in spec["weights"].items()}
             srs = [SR("real", "float64", Fraction(1, 4)), SR("real", "float32", Fraction(1, 4)), SR("log", "float64", Fraction(1, 4)), SRX(Fraction(1, 4)), SR("bool", "bool")]
@@ -91,7 +146,7 @@ def run(tier, seed):
                 for jp in ([False, True] if method == "newton" else [False]):
                     job = dict(spec=gen.spec_jsonable(spec), sr=("log" if isinstance(sr, SRX) else sr.name), dtype=sr.dtype, scale=str(sr.scale), method=method,
                                j_precompute=jp, tol=(1e-10 if sr.dtype == "float64" else 1e-6) if sr.name in ("real", "log") else 1e-6, kmax=400,
-                               viterbi_exp=isinstance(sr, SRX))
+                               viterbi_exp=isinstance(sr, SRX), patterned=patterned)
                     jobs.append(job); info.append((spec, sr, method, jp, recursive))
     # the worker must build ViterbiSemiring for viterbi_exp jobs: encode as sr="viterbi_exp"
     for j in jobs:
@@ -137,6 +192,14 @@ def run(tier, seed):
             violations.append(Violation("result under this option combination disagrees with the exact model (verdict %d of %s)" % (c, kind), case=case, call=call,
                                         oracle="exact model of the sum-product (C01/C02)", corr="C11 / corr:options", failing_input_found=c in (1, 4, 5, 6, 7),
                                         finding_key=("jprecompute_wrong_value" if jp else None)))
+    # the meaning of tol
+    tvals, tmetas = tol_cases(rng, 12 if tier == "quick" else 150, violations)
+    tcodes, a = run_model(TOL, tvals, seed=seed, coq_sample=3, tag="c11tol"); nk += a; total += len(tcodes)
+    for m, c in zip(tmetas, tcodes):
+        if c == 0: continue
+        violations.append(Violation("fixed-point result is not within tol/(1-a) of the least fixed point (verdict %d of tol_check): tol is not an absolute stopping distance" % c,
+                                    case=m, observed=m["observed"], expected=m["least_fixed_point"], oracle="tol_check (C11_fixed_point_stop_bound, C11_tol_check_rejects)",
+                                    corr="C11 / corr:tol", call="sum_product(method='fixed-point', tol=%s)" % m["tol"], failing_input_found=(c == 1)))
     # gradients across method x j_precompute x semiring (C03's dual-number check)
     gvals = []; gmeta = []; f9_skipped = 0
     for gi in range(max(6, n // 2)):
